@@ -437,8 +437,14 @@ func genLoop(o *out) {
 	for _, cs := range sw.Body.List {
 		cc := cs.(*ast.CaseClause)
 		resets := lpCalls(cc, "timer.Reset")
-		if len(resets) != 1 || len(resets[0].Args) != 1 {
-			die("startExecutionLoop: a switch arm does not call timer.Reset exactly once")
+		direct := 0
+		for _, st := range cc.Body {
+			if es, ok := st.(*ast.ExprStmt); ok && lpIsCall(es.X, "timer.Reset") != nil {
+				direct++
+			}
+		}
+		if len(resets) != 1 || len(resets[0].Args) != 1 || direct != 1 {
+			die("startExecutionLoop: a switch arm does not call timer.Reset exactly once, unconditionally")
 		}
 		tm := lpTimerArm(f, resets[0].Args[0], "startExecutionLoop")
 		if cc.List == nil {
